@@ -77,4 +77,23 @@ InitResult(old, overwrite, patterns, path, explicit, Matches(_, _), Render(_, _)
        IF m # 0 THEN Render(patterns[m], path)
        ELSE IF explicit # "" THEN Render(explicit, path)
        ELSE old
+
+---------------------------------------------------------------------------
+(* Saved-query pages (.zoq).  A page is a sequence of lines; a line is [cls, txt] with cls one of                       *)
+(*   "hdr"  (a header line: starts with "#" and is not the stats line - the first one holds the query)                 *)
+(*   "bare" (the header line "#"),  "stats" (`# SAVED QUERY GENERATED ON ...`),  "other" (anything else)               *)
+(* and eh = the text ends in "#".  Refreshing keeps the header (the longest prefix of header lines), separates it from the stats line by one bare      *)
+(* line, and replaces everything below by a blank line and the current results: results never accumulate, the header   *)
+(* never grows, a refreshed page refreshes to itself.                                                                   *)
+IsHdrLine(l) == l.cls \in {"hdr", "bare"}
+ZoqHeaderLen(f) == IF \E i \in DOMAIN f : ~IsHdrLine(f[i])
+                   THEN (CHOOSE i \in DOMAIN f : ~IsHdrLine(f[i]) /\ \A j \in 1..(i - 1) : IsHdrLine(f[j])) - 1
+                   ELSE Len(f)
+ZoqHeader(f) == SubSeq(f, 1, ZoqHeaderLen(f))
+BareLine == [cls |-> "bare", txt |-> "#", eh |-> TRUE]
+ZoqRefresh(f, stats, results) ==
+  LET h == ZoqHeader(f)
+      \* as built: any header line ending in "#" counts as the separator (not only the bare "#")
+      sep == IF h # << >> /\ h[Len(h)].eh THEN << >> ELSE << BareLine >>
+  IN h \o sep \o << stats, [cls |-> "other", txt |-> "", eh |-> FALSE] >> \o results
 =============================================================================
